@@ -52,12 +52,14 @@ RULE = ("every public method of tensor/sptensor/ktensor/ttensor/sumtensor/tenmat
         "write every element, both directions) every case is observed at OBJECT level: a returned pyttb object that IS an "
         "operand object, and a write through the public __setitem__ of either side re-read through the other (holders "
         "re-walked, so a rebound attribute counts - this is what makes an aliased tensor without nonzeros visible); "
+        "tensor.tenfun / tenfun_unary / tenfun_binary also with handles that return (a view of) their argument, with and without inputs; "
         "non-trivial = the call succeeded and returned or changed at least one array; distinct = distinct case hash")
 ASSUMPTIONS = [
     "the classification of NumPy calls into view / fresh / in-place write used by the heap model (checked on every "
     "run by the 'numpy_prims' family against np.shares_memory, strides and contiguity flags)",
     "np.shares_memory is exact; writing every element of an array makes any shared cell visible",
-    "callables passed by the caller (tenfun, elemfun, collapse, from_function) return new arrays",
+    "callables passed by the caller (elemfun, collapse, from_function) return new arrays; tensor.tenfun / tenfun_unary / "
+    "tenfun_binary are exercised with handles that return (a view of) the array they are given as well",
     "object identity and the objects' own __setitem__ are checked by the harness against the property text directly (the "
     "heap model speaks about array cells; an object whose arrays have no cells is outside it)",
 ]
@@ -139,7 +141,15 @@ FUNCS = {
     "ones": lambda s: np.ones(s),
     "ones_f": lambda s: np.ones(s, order="F"),
     "sqrtabs": lambda x: np.sqrt(np.abs(x)) + 1,
+    # handles that return (a view of) the array they were given: what the operation builds from the handle's
+    # return value must still be independent of the operands
+    "ident": lambda x: x,
+    "row0": lambda x: x[0, :],
+    "lastrow": lambda x: x[-1:, :],
+    "first": lambda x, y: x,
+    "second": lambda x, y: y,
 }
+VIEW_FUNCS = ("ident", "row0", "lastrow", "first", "second")
 
 
 def build(s):
@@ -826,6 +836,22 @@ def tensor_cases(rng, tier):
         out.append(case(C, "tenfun_binary", "first=False", X, [fn("add"), py(3.0)], {"first": py(False)}))
         out.append(case(C, "tenfun_unary", "", X, [fn("max0"), Y]))
         out.append(case(C, "tenfun_unary", "self", X, [fn("plus1")]))
+        # handles that return a view of the matrix / arrays they are given (select a row, hand the argument back)
+        Y2 = arr(shape, gen.dense_data(rng, shape))
+        for h in ("row0", "lastrow"):
+            out.append(case(C, "tenfun_unary", f"view:{h}:inputs", X, [fn(h), Y]))
+            out.append(case(C, "tenfun_unary", f"view:{h}:2inputs", X, [fn(h), Y, Tspec(rng, shape)]))
+            out.append(case(C, "tenfun", f"view:{h}:inputs", X, [fn(h), Y, Y2]))
+            out.append(case(C, "tenfun", f"view:{h}:sparse-input", X, [fn(h), Sspec(rng, shape), Y2]))
+        for h in ("ident", "row0", "lastrow"):
+            out.append(case(C, "tenfun_unary", f"view:{h}:self", X, [fn(h)]))
+            out.append(case(C, "tenfun", f"view:{h}:self", X, [fn(h)]))
+        for h in ("first", "second"):
+            out.append(case(C, "tenfun", f"view:{h}:tensor", X, [fn(h), Y]))
+            out.append(case(C, "tenfun", f"view:{h}:ndarray", X, [fn(h), Y2]))
+            out.append(case(C, "tenfun", f"view:{h}:sptensor", X, [fn(h), Sspec(rng, shape)]))
+            out.append(case(C, "tenfun_binary", f"view:{h}:tensor", X, [fn(h), Y]))
+            out.append(case(C, "tenfun_binary", f"view:{h}:first=False", X, [fn(h), Y], {"first": py(False)}))
         out.append(case(C, "mask", "", X, [{"t": "tensor", "shape": shape, "data": [i % 2 for i in range(gen.numel(shape))]}]))
         # collapse / scale
         out.append(case(C, "collapse", "all", X))
